@@ -113,6 +113,18 @@ def cases(tier, rng):
             else:
                 data = [rng.randrange(256) for _ in range(cap)]
             lines.append("dmecc %d %s" % (i, hx(data)))
+    # blocks whose check codewords begin with one / two zero codewords (see lib/rs_py.py), directly and as symbols
+    import rs_py
+    for i, (nd, k) in enumerate(rs_py.DM_SMALL):
+        for nz in (1, 2):
+            d = rs_py.engineer(rs_py.DM, rng, nd, k, nz)
+            if d:
+                lines.append("dmecc %d %s" % (i, hx(d)))
+    for c in rs_py.dm_zero_contents(rng, per=1 if quick else 6):
+        lines.append("dm " + hx(c))
+    # far more codewords than any symbol holds, incl. counts that wrap around 16 bits onto a valid count
+    for n in (1559, 5000, 65535, 65536, 65539, 65536 + 1558, 65536 + 1559, 131072):
+        lines.append("dm " + hx(b"a" * n))
     # full encoder: empty, all single bytes, boundaries of every size, capacity limit, random
     lines.append("dm -")
     lines += ["dm %02x" % c for c in range(256)]
